@@ -33,6 +33,16 @@ the parser's result (harness/_C06_real.fingerprint) and expected tree; one repre
 is resolved and applied under CrossHair with SYMBOLIC leaf values (verdicts, integer operands and
 model, transformer tags and identity flags), and z3 decides that no leaf valuation makes verdict
 or asking order differ from the lazily evaluated tree.
+
+What differs, for a failing obligation (debugging aid, not part of the check):
+    PYTHONPATH=/repo/src:/verif /venv/bin/python -W ignore -m harness.C06 OBLIGATION TIER "ARGS" [excluded,regions]
+prints every concrete disagreement (kind, source text, simple?, on-current-line?, what the real parser left / said)
+and every reading whose verdict or asking order differs.
+
+Known-finding regions (predicates on the input, see in_region_a / in_region_b; each has a witness obligation
+K2:witness:* that lies entirely inside the region):
+  C06-and-on-new-line-after-or-inside-parens   `( A || B <line break> && C )`: the `&&` is consumed as the `)`
+  C06-and-on-new-line-outside-parens           `A <line break> && B` is read as `A && B`, `A <line break> || B` is not
 """
 import itertools
 from typing import List
